@@ -116,7 +116,8 @@ def c14_checks(cfg, rr, seed):
     # twin: program = client 0's steps; prefixes = nothing vs the other clients' steps + junk
     P = [r for r in rr.recipes if r.get("client", 0) == 0]
     others = [r for r in rr.recipes if r.get("client", 0) != 0]
-    s = seed % 9973 + 7
+    # "for every seed": boundary values are legal seeds too (0 is falsy, 2**31-1 is the largest int32)
+    s = {0: 0, 1: 2**31 - 1, 2: 1}.get(seed % 7, seed % 9973 + 7)
     reseed = {"do": "config", "seed": s, "sid": 10**6, "client": 0}
     junk = [
         {"do": "mk_env", "name": "e90", "client": 9, "fock": 1, "pol": "R", "sid": 10**6 + 1},
